@@ -35,6 +35,10 @@ def contract(cell, ir):
     field = "names" if d.startswith("parameter names") else ("returns" if d.startswith("return entry") else (d.split(":")[0] if d.startswith("returns.") else d.split(":")[0].split(".")[-1]))
     src = ir["params"].get(d.split(".")[0], {}) if field not in ("names", "returns") and not field.startswith("returns.") else {}
     opts = "annotations=%s,kwonly=%s" % (ta, kwonly) if fmt == "function" else "-"
+    if field == "returns" or field.startswith("returns."):
+        # failures on the return entry are keyed by the shape of the entry that went in
+        shape = "+".join(k for k in ("typ", "doc", "default") if k in ((ir.get("returns") or {}).get("return_type") or {})) or "none"
+        return [(("roundtrip", fmt, style, "default_doc=%s" % edd, opts, field, "ret", shape), "%s; emitted source:\n%s" % (d, text[-400:]), None)]
     return [(("roundtrip", fmt, style, "default_doc=%s" % edd, opts, field, M.typ_class(src.get("typ")) if src else "-", M.default_class(src) if src else "-"),
              "%s; emitted source:\n%s" % (d, text[-400:]), None)]
 
@@ -64,11 +68,16 @@ def main(tier, write_baseline=False):
         irs = list(domain.irs(1, pool, suffix_defaults=True)) + list(domain.irs(3 if tier == "thorough" else 2, pool, sample=250 if tier == "quick" else 2500, seed=run.seed, suffix_defaults=True))
         irs += [ir for ir in domain.irs(1, pool[:8], suffix_defaults=True, returns=(("typ", "int"), ("doc", "the result"), ("default", 5)))]
         irs += [ir for ir in domain.irs(1, pool[:4], suffix_defaults=True, returns=(("typ", "Tuple[int, int]"), ("doc", "the pair"), ("default", "```(alpha, beta)```")))]
+        # return entries without a description, interleaved: value-and-type, type only (state carried from one parse
+        # to the next in the same process shows up as a foreign default / type on the second)
+        for ir_a, ir_b in zip(domain.irs(1, pool[:4], suffix_defaults=True, returns=(("typ", "int"), ("default", 5))),
+                              domain.irs(1, pool[:4], suffix_defaults=True, returns=(("typ", "str"),))):
+            irs += [ir_a, ir_b]
         cells = cells_for(tier)
         n, raised, fails = M.run(cells, irs, contract)
         run.bounded.append({
             "name": "round-trip contract on the real class / pydantic / function / argparse emitters and parsers (bounded, NOT counted as proved)",
-            "bound": "%d interface descriptions (n <= 1 exhaustive over %d shapes, n <= %d seeded sample, 12 with return entries) x %d cells (formats x 3 styles x emit_default_doc x {annotations, kw-only} for functions); %d evaluations raised" % (len(irs), len(pool), 3 if tier == "thorough" else 2, len(cells), raised),
+            "bound": "%d interface descriptions (n <= 1 exhaustive over %d shapes, n <= %d seeded sample, 20 with return entries) x %d cells (formats x 3 styles x emit_default_doc x {annotations, kw-only} for functions); %d evaluations raised" % (len(irs), len(pool), 3 if tier == "thorough" else 2, len(cells), raised),
             "rule": "one evaluation per (interface, cell)",
             "evaluations": n, "distinct_nontrivial": len({json.dumps(domain.project(i), default=str) for i in irs if i["params"]}) * len(cells),
             "failures": [{"class": "|".join(map(str, k)), "what": v[2][:300]} for k, v in list(fails.items())[:6]],
